@@ -78,17 +78,29 @@ package smtp
 //@ contract (*Conn).writeResponse(c, code, enhCode, text)
 //@   prop C04 C17
 //@   requires c != nil && c.server != nil && c.conn != nil && c.text != nil
+//@   requires @C04 reply-code-valid: 200 <= code && code <= 599
+//@   requires @C04 enhanced-code-of-the-same-class: enhOK(code, enhCode)
+//@   requires @C04 enhanced-code-present: enhCode == NoEnhancedCode ==> enhMayBeAbsent(code)
+//@   requires @C04 reply-text-well-formed: forall i :: 0 <= i && i < len(text) ==> replyText(text[i])
 //@   ghostset c.replies = old(c.replies) + 1
 //@   ghostset c.finals = old(c.finals) + (code >= 300 && code < 400 ? 0 : 1)
 //@   ghostset c.lastCode = code
 //@   modifies c.replies, c.finals, c.lastCode
+//@   before (*net/textproto.Writer).PrintfLine: @C17 enhanced-code-on-every-line: $1 == "%d-%v" ==> enhCode == NoEnhancedCode
 //@   ensures c.replies == old(c.replies) + 1 && c.finals == old(c.finals) + (code >= 300 && code < 400 ? 0 : 1) && c.lastCode == code
+//@   ensures @C17,C04 code-on-the-wire: c.text.Writer.lastCode == code
+//@   ensures @C17,C04 at-least-one-line: c.text.Writer.lines >= old(c.text.Writer.lines) + 1
+//@   ensures @C17 no-enhanced-code-only-if-absent-or-unclassed: c.text.Writer.lastFormat == "%d %v" ==> enhCode == NoEnhancedCode || (enhCode == EnhancedCodeNotSet && code / 100 != 2 && code / 100 != 4 && code / 100 != 5)
+//@   ensures @C17 enhanced-code-verbatim: enhCode != NoEnhancedCode && enhCode != EnhancedCodeNotSet ==> c.text.Writer.lastFormat == "%d %v.%v.%v %v" && c.text.Writer.lastEnh0 == enhCode[0] && c.text.Writer.lastEnh1 == enhCode[1] && c.text.Writer.lastEnh2 == enhCode[2]
+//@   ensures @C17 unset-enhanced-code-defaults-to-class: enhCode == EnhancedCodeNotSet && (code / 100 == 2 || code / 100 == 4 || code / 100 == 5) ==> c.text.Writer.lastFormat == "%d %v.%v.%v %v" && c.text.Writer.lastEnh0 == code / 100 && c.text.Writer.lastEnh1 == 0 && c.text.Writer.lastEnh2 == 0
 //@   loop 1:
-//@     invariant 0 <= i && lastLineIndex == len(text) - 1
+//@     invariant 0 <= i && lastLineIndex == len(text) - 1 && c.text.Writer.lines >= old(c.text.Writer.lines)
 
 //@ contract (*Conn).protocolError(c, code, ec, msg)
 //@   prop C04 C08 C19
 //@   requires connInv(c) && !c.closed
+//@   requires @C04 reply-shape: 400 <= code && code <= 599 && enhOK(code, ec) && ec != NoEnhancedCode
+//@   requires @C04 reply-text-well-formed: replyText(msg)
 //@   modifies c.errCount, c.replies, c.finals, c.lastCode, c.bdatPipe, c.session, c.closed, c.cbLogout, c.bdatPipe.state, c.session.loggedOut
 //@   ensures inv: connInv(c)
 //@   ensures @C19 counted: c.errCount == old(c.errCount) + 1
@@ -128,7 +140,10 @@ package smtp
 //@ contract (*Conn).writeError(c, code, enhCode, err)
 //@   prop C04 C17
 //@   requires c != nil && c.server != nil && c.conn != nil && c.text != nil && err != nil && errOK(err)
+//@   requires @C04 generic-code-valid: 400 <= code && code <= 599 && enhOK(code, enhCode) && enhCode != NoEnhancedCode
 //@   modifies c.replies, c.finals, c.lastCode
+//@   ensures @C17 code-on-the-wire: c.text.Writer.lastCode == c.lastCode
+//@   ensures @C17 smtp-error-enhanced-code-verbatim: istype(err, "*SMTPError") && asref(err, "*SMTPError").EnhancedCode != EnhancedCodeNotSet ==> c.text.Writer.lastFormat == "%d %v.%v.%v %v" && c.text.Writer.lastEnh0 == asref(err, "*SMTPError").EnhancedCode[0] && c.text.Writer.lastEnh1 == asref(err, "*SMTPError").EnhancedCode[1] && c.text.Writer.lastEnh2 == asref(err, "*SMTPError").EnhancedCode[2]
 //@   ensures c.replies == old(c.replies) + 1
 //@   ensures @C17 smtp-error-verbatim: istype(err, "*SMTPError") ==> c.lastCode == asref(err, "*SMTPError").Code
 //@   ensures @C17 generic-code: !istype(err, "*SMTPError") ==> c.lastCode == code
@@ -363,13 +378,13 @@ package smtp
 
 //@ contract (*Conn).greet(c)
 //@   prop C04
-//@   requires c != nil && c.server != nil && c.conn != nil && c.text != nil
+//@   requires c != nil && c.server != nil && c.conn != nil && c.text != nil && replyText(c.server.Domain)
 //@   modifies c.replies, c.finals, c.lastCode
 //@   ensures c.replies == old(c.replies) + 1
 
 //@ contract (*Server).handleConn(s, c) (err)
 //@   prop C03 C04 C07 C08 C19 C20
-//@   requires s != nil && c != nil && c.server == s && connInv(c) && !c.closed && !s.LMTP && s.ErrorLog != nil
+//@   requires s != nil && c != nil && c.server == s && connInv(c) && !c.closed && s.ErrorLog != nil && replyText(s.Domain)
 //@   requires c.session == nil && c.cbNew == c.cbLogout && s.conns != nil
 //@   requires c.lineLimitReader.LineLimit == s.MaxLineLength
 //@   modifies c.*, s.conns[*], *.Session.loggedOut, *.io.PipeWriter.state, *.io.PipeWriter.written, *.bufio.Reader.pos, *.bufio.Reader.iofail, *.bufio.Reader.unreadable, *.lineLimitReader.LineLimit, *chan, *elems string
@@ -377,7 +392,7 @@ package smtp
 //@   ensures @C08 every-session-logged-out: c.cbNew == c.cbLogout
 //@   ensures @C07 no-transfer-left-open: c.bdatPipe == nil
 //@   loop 1:
-//@     invariant connInv(c) && c.server == s && s.conns != nil && !s.LMTP && s.ErrorLog != nil
+//@     invariant connInv(c) && c.server == s && s.conns != nil && s.ErrorLog != nil
 //@     invariant @C19 line-limit-active: c.lineLimitReader.LineLimit == s.MaxLineLength
 //@     backedge @C19,C08 loop-ends-when-reading-fails: resultof("(*Conn).readLine", 1, 2) == nil
 //@     invariant @C08 no-session-lost: c.cbNew - c.cbLogout == (c.session != nil ? 1 : 0)
